@@ -63,6 +63,12 @@ class TapeImageContentExtractor(TapeImageWorker):
                 ):
                     # a file named like the archive, extracted beside it
                     raise ValueError(f"would.overwrite.the.archive:{targetPath}")
+                if os.path.islink(targetPath) or (
+                    os.path.isfile(targetPath) and os.stat(targetPath).st_nlink > 1
+                ):
+                    # a link left at the destination : the extracted file replaces it,
+                    # it is not written through it (that would alter a file elsewhere)
+                    os.unlink(targetPath)
                 with open(targetPath, "wb") as f:
                     f.write(fileContent)
                 listener.onEndBlock()
